@@ -94,22 +94,6 @@ theorem stepFns_source (D : Derive) (tg : Target) (md : Modes) (h : D.WF) :
     StepFns D.vals (T.next D tg md) (T.nextBack D tg md) :=
   T.stepFnsT D tg md h (fun i hi => C05_next_index D h i hi) (fun i hi => C05_nextBack_index D h i hi)
 
-theorem cursor_of_bind {α : Type} (r : Res α) (f : α → List Int) (st : IterState Int)
-    (hr : (r.bind fun x => Res.ok (IterState.cursor (f x))) = .ok st) : ∃ l, st = .cursor l := by
-  cases r with
-  | ok a => simp only [Res.bind_ok] at hr; injection hr with e; exact ⟨f a, e.symm⟩
-  | panic w => simp at hr
-  | ub w => simp at hr
-
-theorem iterInit_cursor (D : Derive) (m : IterMode) (hm : m ≠ .nextAndBack) (st : IterState Int) (hi : iterInit D m = .ok st) :
-    ∃ l, st = .cursor l := by
-  cases m with
-  | nextAndBack => exact absurd rfl hm
-  | range => exact cursor_of_bind _ (fun l => l) st hi
-  | auto => simp only [iterInit] at hi; injection hi with e; exact ⟨_, e.symm⟩
-  | table => simp only [iterInit] at hi; injection hi with e; exact ⟨_, e.symm⟩
-  | tableInline => simp only [iterInit] at hi; injection hi with e; exact ⟨_, e.symm⟩
-
 /-- the function bodies the templates contain are exactly the ones the model accounts for: in particular the hand-written
 `next_and_back` struct implements `next`, `size_hint`, `next_back`, `len` and nothing else, so every other `Iterator` /
 `DoubleEndedIterator` method on it is `core`'s provided one (which is how `TRun.lean` and `Iter.lean` run them) -/
